@@ -12,8 +12,8 @@ Inductive reachable (s0 : state) : state -> Prop :=
 | reach_init : reachable s0 s0
 | reach_step : forall s a s', reachable s0 s -> step s a = Some s' -> reachable s0 s'.
 
-Definition Reach (nv : nat) (kinds : lid -> lkind) (progs : tid -> list op) (s : state) : Prop :=
-  reachable (init nv kinds progs) s.
+Definition Reach (nv : nat) (kinds : lid -> lkind) (home : tid -> vid) (progs : tid -> list op) (s : state) : Prop :=
+  reachable (init nv kinds home progs) s.
 
 (* ---- small facts ---------------------------------------------------------------------------- *)
 Lemma updf_same {A} (f : tid -> A) k v : updf f k v k = v.
@@ -680,10 +680,10 @@ Proof.
 Qed.
 
 (* thread_create of a NEW thread k on vCPU v *)
-Lemma WF_create s v k : WF s -> st (th s k) = NEW ->
-  WF (rq_append (updT s k (fun x => t_vcp (t_st x READY) v)) v k).
+Lemma WF_create s v k : WF s -> st (th s k) = NEW -> vcp (th s k) = v ->
+  WF (rq_append (updT s k (fun x => t_st x READY)) v k).
 Proof.
-  intros W Hs.
+  intros W Hs Hvk.
   assert (Nq : forall q, ~ In k (wqs s q)) by (intros q H; apply (wf_wq s W) in H; destruct H; congruence).
   assert (Nr : forall v', ~ In (Th k) (runq (vc s v'))) by (intros v' H; apply (wf_rq s W) in H; destruct H as [[H|H] _]; congruence).
   assert (Ns : forall v', ~ In k (sbq (vc s v'))) by (intros v' H; apply (wf_sb s W) in H; destruct H; congruence).
@@ -719,21 +719,209 @@ Proof.
   constructor.
   - intros y q H. proj. assert (y <> t) by (intros ->; eapply not_sleeping_not_queued; eauto).
     rewrite th_updT_other; auto. now apply (wf_wq s W).
-  - intros y v' H. proj. rewrite vc_updV in H.
+  - intros y v' H. proj. rewrite ?vc_updT, ?vc_updV in H.
     assert (H1 : In (Th y) (runq (vc s v')) /\ y <> t).
     { destruct (Nat.eqb_spec v' v); subst; simpl in H.
       - rewrite E in *. simpl in H. split; [now right|]. intros ->. auto.
       - split; auto. intros ->. apply (wf_rq s W) in H. destruct H as [_ H]. congruence. }
     destruct H1. rewrite th_updT_other; auto. now apply (wf_rq s W).
-  - intros v'. proj. rewrite vc_updV. destruct (Nat.eqb_spec v' v); subst; simpl; [rewrite E; auto|apply (wf_rqnd s W)].
-  - intros y v' H. proj. rewrite vc_updV in H.
+  - intros v'. rewrite ?vc_updT, ?vc_updV. destruct (Nat.eqb_spec v' v); subst; simpl; [rewrite E; auto|apply (wf_rqnd s W)].
+  - intros y v' H. proj. rewrite ?vc_updT, ?vc_updV in H.
     assert (H1 : In y (sbq (vc s v'))) by (destruct (Nat.eqb_spec v' v); subst; auto).
     pose proof (wf_sb s W y v' H1) as [A B]. assert (y <> t) by (intros ->; congruence).
     rewrite th_updT_other; auto.
-  - intros v'. proj. rewrite vc_updV. destruct (Nat.eqb_spec v' v); subst; simpl; apply (wf_sbnd s W).
-  - intros y v' H. proj. rewrite vc_updV in H.
+  - intros v'. rewrite ?vc_updT, ?vc_updV. destruct (Nat.eqb_spec v' v); subst; simpl; apply (wf_sbnd s W).
+  - intros y v' H. proj. rewrite ?vc_updT, ?vc_updV in H.
     assert (H1 : In y (hq (slq (vc s v')))) by (destruct (Nat.eqb_spec v' v); subst; auto).
     pose proof (wf_sl s W y v' H1) as [A B].
     destruct (Nat.eq_dec y t); subst; [rewrite th_updT_same; simpl; split; [auto|discriminate]|rewrite th_updT_other; auto].
 Qed.
 
+
+(* ---- preservation by every step ------------------------------------------------------------- *)
+Lemma WF_lock_done s t l k r en : WF s -> WF (lock_done s t l k r en).
+Proof.
+  intros W. unfold lock_done. destruct k.
+  - destruct (r =? 0); [apply WF_finish, WF_set_held|apply WF_finish]; auto.
+  - destruct (r =? 0).
+    + destruct (translate ret en0). apply WF_finish, WF_set_held; auto.
+    + apply WF_set_pc; auto.
+Qed.
+
+Lemma WF_take_err s t a b s1 : WF s -> take_err s t = (a, b, s1) -> WF s1.
+Proof.
+  intros W H. unfold take_err in H. destruct (err (th s t) =? 0); inversion H; subst; auto.
+  apply WF_updT; auto. apply keeps_err.
+Qed.
+Lemma take_err_vc s t a b s1 : take_err s t = (a, b, s1) -> vc s1 = vc s.
+Proof. unfold take_err. destruct (err (th s t) =? 0); intros H; inversion H; subst; reflexivity. Qed.
+
+Lemma WF_mutex_unlock s va l s' : WF s -> mutex_unlock s va l = Some s' -> WF s'.
+Proof.
+  intros W H. unfold mutex_unlock in H. destruct (wqs s (WMx l)) as [|h q] eqn:E.
+  - inversion H; subst. now apply WF_lown.
+  - destruct (lk (th s h)); [discriminate|]. inversion H; subst. clear H.
+    assert (Hs : st (th s h) = SLEEPING) by (apply (wf_wq s W h (WMx l)); rewrite E; now left).
+    apply WF_wake_by.
+    + apply WF_updT; [apply keeps_wkerr|]. now apply WF_lown.
+    + rewrite th_updT_same. simpl. exact Hs.
+Qed.
+Lemma WF_do_unlock s va l s' : WF s -> do_unlock s va l = Some s' -> WF s'.
+Proof.
+  intros W H. unfold do_unlock in H. destruct (lkd s l).
+  - eapply WF_mutex_unlock; eauto.
+  - inversion H; subst. now apply WF_lown.
+Qed.
+
+Lemma WF_lock_try s v t r l k s' : WF s -> runq (vc s v) = Th t :: r -> lock_try s v t l k = Some s' -> WF s'.
+Proof.
+  intros W E H. unfold lock_try in H. destruct (lown s l).
+  - destruct (lkd s l); [|discriminate]. destruct (lk (th s t)); [discriminate|]. inversion H; subst.
+    apply WF_set_pc. eapply WF_prepare_usleep; eauto.
+  - inversion H; subst. apply WF_lock_done. now apply WF_lown.
+Qed.
+
+Lemma WF_yield s v t p : WF s -> WF (set_pc (rotate (updT s t (fun x => t_err x 0)) v) t p).
+Proof. intros W. apply WF_set_pc, WF_rotate, WF_updT; auto. apply keeps_err. Qed.
+
+Lemma WF_notify_read s t c all n : WF s -> WF (notify_read s t c all n).
+Proof.
+  intros W. unfold notify_read. destruct (wqs s (WCv c)); [destruct all; now apply WF_finish|now apply WF_set_pc].
+Qed.
+
+Lemma WF_op_step s v t r o s' : WF s -> runq (vc s v) = Th t :: r -> op_step s v t o = Some s' -> WF s'.
+Proof.
+  intros W E H. destruct o; simpl in H.
+  - (* create *)
+    destruct (tstate_eqb (st (th s k)) NEW && Nat.leb (nvc s) k && Nat.eqb (vcp (th s k)) v) eqn:C; inversion H; subst; [|now apply WF_finish].
+    apply andb_true_iff in C. destruct C as [C C2]. apply andb_true_iff in C. destruct C as [C _].
+    destruct (tstate_eqb_spec (st (th s k)) NEW); [|discriminate]. apply Nat.eqb_eq in C2.
+    apply WF_finish. now apply WF_create.
+  - inversion H; subst. now apply WF_yield.
+  - destruct ((expiration_of s d =? 0) || (expiration_of s d <=? now s)).
+    + inversion H; subst. now apply WF_yield.
+    + destruct (lk (th s t)); [discriminate|]. inversion H; subst. apply WF_set_pc. eapply WF_prepare_usleep; eauto.
+  - destruct (alive s k && (0 <? e)).
+    + destruct (tstate_eqb (st (th s k)) SLEEPING); inversion H; subst; now apply WF_set_pc.
+    + inversion H; subst; now apply WF_finish.
+  - destruct (held (th s t) l); [inversion H; subst; now apply WF_finish|]. eapply WF_lock_try; eauto.
+  - destruct (held (th s t) l); [|inversion H; subst; now apply WF_finish].
+    destruct (do_unlock s v l) eqn:U; [|discriminate]. inversion H; subst.
+    apply WF_finish, WF_set_held. eapply WF_do_unlock; eauto.
+  - destruct (held (th s t) l); [|inversion H; subst; now apply WF_finish].
+    destruct (lk (th s t)); [discriminate|]. inversion H; subst.
+    apply WF_set_pc. apply WF_updV; [apply vkeeps_pend|]. eapply WF_prepare_usleep; eauto.
+  - inversion H; subst. now apply WF_notify_read.
+  - inversion H; subst. now apply WF_notify_read.
+  - inversion H; subst. now apply WF_finish.
+Qed.
+
+Lemma WF_thread_step s v t r s' : WF s -> runq (vc s v) = Th t :: r -> thread_step s v t = Some s' -> WF s'.
+Proof.
+  intros W E H. unfold thread_step in H.
+  destruct (tpc (th s t)) eqn:P.
+  - (* PIdle *)
+    destruct (prog (th s t)) as [|o os]; [|eapply WF_op_step; eauto].
+    destruct (lk (th s t)); [discriminate|]. destruct (Nat.ltb t (nvc s)); inversion H; subst.
+    + apply WF_set_pc. eapply WF_prepare_usleep; eauto.
+    + eapply WF_die; eauto.
+  - (* PYielded *)
+    destruct as_sleep; [destruct (err (th s t) =? 0)|]; inversion H; subst; now apply WF_finish.
+  - destruct (take_err s t) as [[a b] s1] eqn:T. inversion H; subst. apply WF_finish. eapply WF_take_err; eauto.
+  - (* PParked *)
+    destruct (lk (th s t)); [discriminate|]. destruct (take_err s t) as [[a b] s1] eqn:T. inversion H; subst.
+    apply WF_set_pc. eapply WF_prepare_usleep; [eapply WF_take_err; eauto|]. erewrite take_err_vc; eauto.
+  - destruct (take_err s t) as [[a b] s1] eqn:T. inversion H; subst. apply WF_set_pc. eapply WF_take_err; eauto.
+  - eapply WF_lock_try; eauto.
+  - (* PLockSlept *)
+    destruct (take_err s t) as [[a b] s1] eqn:T. pose proof (WF_take_err _ _ _ _ _ W T) as W1.
+    destruct ((a <? 0) && (b =? -1)).
+    + destruct (lown s1 l) as [o|]; [destruct (Nat.eqb o t)|]; inversion H; subst;
+        try apply WF_lock_done; try apply WF_set_pc; auto.
+    + destruct (translate a b). inversion H; subst. now apply WF_lock_done.
+  - (* PRetry *)
+    destruct (sat_add (now s) 1000 <=? now s).
+    + inversion H; subst. now apply WF_yield.
+    + destruct (lk (th s t)); [discriminate|]. inversion H; subst. apply WF_set_pc. eapply WF_prepare_usleep; eauto.
+  - destruct (take_err s t) as [[a b] s1] eqn:T. inversion H; subst. apply WF_set_pc. eapply WF_take_err; eauto.
+  - inversion H; subst. now apply WF_notify_read.
+  - destruct (lk (th s x)); [discriminate|]. inversion H; subst. apply WF_set_pc, WF_updT; auto. apply keeps_lk.
+  - destruct (wqs s (WCv c)) as [|h q]; [|destruct (Nat.eqb h x)]; inversion H; subst; now apply WF_set_pc.
+  - inversion H; subst. apply WF_set_pc, WF_updT; auto. apply keeps_lk.
+  - (* PNfGo *)
+    destruct (tstate_eqb_spec (st (th s x)) SLEEPING) as [Hs|Hs]; inversion H; subst; apply WF_set_pc.
+    + apply WF_wake_by; [apply WF_updT; auto; apply keeps_wkerr|]. rewrite th_updT_same. exact Hs.
+    + eapply WF_view; [|exact W]. repeat split; auto.
+  - destruct all; inversion H; subst; [apply WF_set_pc|apply WF_finish]; apply WF_updT; auto; apply keeps_lk.
+  - destruct (lk (th s k)); [discriminate|]. inversion H; subst. apply WF_set_pc, WF_updT; auto. apply keeps_lk.
+  - (* PInLocked *)
+    destruct (tstate_eqb_spec (st (th s k)) SLEEPING) as [Hs|Hs]; inversion H; subst; apply WF_set_pc; auto.
+    apply WF_wake_by; [apply WF_updT; auto; apply keeps_wkerr|]. rewrite th_updT_same. exact Hs.
+  - destruct o; inversion H; subst; [apply WF_set_pc|apply WF_finish]; apply WF_updT; auto; apply keeps_lk.
+  - destruct (tstate_eqb _ READY && (err (th s k) =? 0)); inversion H; subst; [now apply WF_set_pc|now apply WF_finish].
+  - inversion H; subst. apply WF_finish, WF_updT; auto. apply keeps_err.
+Qed.
+
+Lemma WF_idle_decide s v cnt : WF s -> WF (idle_decide s v cnt).
+Proof.
+  intros W. unfold idle_decide. destruct (_ || _); (apply WF_updV; [apply vkeeps_ipc|]); auto. now apply WF_rotate.
+Qed.
+
+Lemma WF_idler_step s v s' : WF s -> idler_step s v = Some s' -> WF s'.
+Proof.
+  intros W H. unfold idler_step in H. destruct (vipc (vc s v)) eqn:P.
+  - (* IStart: eject the stand-by batch *)
+    destruct (eject (updV s v (fun y => v_sbq y [])) v (sbq (vc s v)) 0) as [s1 cnt] eqn:Ej. inversion H; subst.
+    apply WF_updV; [apply vkeeps_ipc|].
+    change s1 with (fst (s1, cnt)). rewrite <- Ej.
+    apply WF_eject.
+    + now apply WF_sbq_nil.
+    + intros x Hx. proj. now apply (wf_sb s W).
+    + apply (wf_sbnd s W).
+    + intros x Hx v' Hi. rewrite vc_updV in Hi. destruct (Nat.eqb_spec v' v); subst; simpl in Hi; auto.
+      apply (wf_sb s W) in Hi. apply (wf_sb s W) in Hx. destruct Hi, Hx. congruence.
+  - destruct (front (slq (vc s v))) as [x|] eqn:F; [|inversion H; subst; now apply WF_idle_decide].
+    destruct (now s <? ts (th s x)); [inversion H; subst; now apply WF_idle_decide|].
+    destruct (lk (th s x)); [discriminate|].
+    match type of H with context [tstate_eqb ?a SLEEPING] => destruct (tstate_eqb_spec a SLEEPING) as [Hs|Hs] end;
+      inversion H; subst.
+    + apply WF_timeout; auto.
+    + apply WF_slq; auto. intros y Hy. left. now apply pop_front_sub in Hy.
+  - inversion H; subst. apply WF_updV; auto. apply vkeeps_ipc.
+Qed.
+
+Lemma WF_vstep s v s' : WF s -> vstep s v = Some s' -> WF s'.
+Proof.
+  intros W H. unfold vstep in H. destruct (pend (vc s v)) as [[w l]|].
+  - destruct (do_unlock s v l) eqn:U; [|discriminate]. inversion H; subst.
+    apply WF_updV; [apply vkeeps_pend|]. apply WF_set_held. eapply WF_do_unlock; eauto.
+  - destruct (runq (vc s v)) as [|[t|] r] eqn:E; [discriminate| |].
+    + eapply WF_thread_step; eauto.
+    + eapply WF_idler_step; eauto.
+Qed.
+
+Lemma WF_step s a s' : WF s -> step s a = Some s' -> WF s'.
+Proof.
+  intros W H. destruct a; simpl in H.
+  - eapply WF_vstep; eauto.
+  - inversion H; subst. eapply WF_view; [|exact W]. repeat split; auto.
+Qed.
+
+Lemma WF_init nv kinds home progs : WF (init nv kinds home progs).
+Proof.
+  constructor; simpl.
+  - intros t q [].
+  - intros t v H. destruct (Nat.ltb_spec v nv); [|destruct H].
+    destruct H as [H|[H|[]]]; [|discriminate]. inversion H; subst.
+    destruct (Nat.ltb_spec t nv); [simpl; auto|lia].
+  - intros v. destruct (Nat.ltb v nv); [|constructor].
+    constructor; [intros [H|[]]; discriminate|]. constructor; [intros []|constructor].
+  - intros x v [].
+  - intros v. constructor.
+  - intros x v [].
+Qed.
+
+Theorem WF_reachable nv kinds home progs s : Reach nv kinds home progs s -> WF s.
+Proof.
+  induction 1 as [|s a s' R IH H]; [apply WF_init|eapply WF_step; eauto].
+Qed.
